@@ -316,6 +316,7 @@ pub struct Ctx {
     machinery_errors: Vec<String>,
     selfcheck_failures: Vec<String>,
     group_share_s: Option<f64>,
+    budget_explicit: bool,
     pub states: u64,
     pub transitions: u64,
     pub traces_validated: u64,
@@ -385,9 +386,9 @@ impl Ctx {
             Tier::Quick => 55,
             Tier::Thorough => 1800,
         };
-        let budget = budget
-            .or_else(|| std::env::var("VERIF_BUDGET_S").ok().and_then(|s| s.parse().ok()))
-            .unwrap_or(default_budget);
+        let budget_opt = budget.or_else(|| std::env::var("VERIF_BUDGET_S").ok().and_then(|s| s.parse().ok()));
+        let budget_explicit = budget_opt.is_some();
+        let budget = budget_opt.unwrap_or(default_budget);
         let start = Instant::now();
         Ctx {
             prop: prop.to_string(),
@@ -417,6 +418,7 @@ impl Ctx {
             machinery_errors: vec![],
             selfcheck_failures: vec![],
             group_share_s: None,
+            budget_explicit,
             states: 0,
             transitions: 0,
             traces_validated: 0,
@@ -432,6 +434,14 @@ impl Ctx {
     }
 
     /// Seconds left in the wall budget.
+    /// A check whose thorough tier needs more than the default wall budget asks for it here; an
+    /// explicit `--budget-s` / VERIF_BUDGET_S always wins.
+    pub fn thorough_budget(&mut self, secs: u64) {
+        if self.tier == Tier::Thorough && !self.budget_explicit && !self.is_replay() {
+            self.deadline = Some(self.start + Duration::from_secs(secs));
+        }
+    }
+
     /// Limits the wall time of the next `run_cases` group to `share_s` seconds (or to what is
     /// left of the run's budget, whichever is less); a group cut short prints its CAP line.
     pub fn next_group_share(&mut self, share_s: f64) {
